@@ -10,7 +10,6 @@ from .._sentinels import undefined
 from .._utils import value_to_token
 from .generic_value import GenericValue
 from .generic_value import clone
-from .generic_value import ignore_old_value
 
 
 class CollectionValue(GenericValue):
@@ -26,7 +25,7 @@ class CollectionValue(GenericValue):
             if item not in self._new_value:
                 self._new_value.append(clone(item))
 
-        if ignore_old_value() or self._old_value is undefined:
+        if self._old_value is undefined:
             return True
         else:
             return self._return(item in self._old_value)
